@@ -69,6 +69,15 @@ func genSignCase(t *core.Tape, uniq string, mods []string) *signCase {
 		default:
 			c.Input = []byte("Write-Host 'unique " + uniq + "'\r\n" + strings.Repeat("# padding\r\n", t.Choose(50, "ps-lines")))
 		}
+		if t.Chance(1, 4, "ps-utf16") {
+			// a UTF-16 (little-endian, with byte order mark) script: digest and
+			// signature block are then computed and written in that encoding
+			u := []byte{0xff, 0xfe}
+			for _, r := range string(c.Input) {
+				u = append(u, byte(r), byte(r>>8))
+			}
+			c.Input = u
+		}
 		if t.Chance(1, 3, "opus") {
 			c.Flags.Set("description", "name-"+uniq)
 			c.Flags.Set("desc-url", "http://example.com/"+uniq)
@@ -289,6 +298,13 @@ func (c *signCase) verify(mime string, blob []byte, pgpKeys openpgp.EntityList) 
 	result, err := os.ReadFile(out)
 	if err != nil {
 		return nil, nil, err
+	}
+	if strings.HasSuffix(c.Mod, "apk") && c.Flags.Get("apk-v2-present") == "" {
+		// relic's verifier does not recompute the v2 content digest: an
+		// independent reading of the scheme does
+		if _, err := apkV2Reference(result); err != nil {
+			return nil, result, fmt.Errorf("reference APK v2 verifier: %w", err)
+		}
 	}
 	vf, err := simos.Open(out)
 	if err != nil {
